@@ -201,3 +201,19 @@ CHECKS["C02"] = {
         "addOnException handlers are treated as configuration (not reset)." + TRUSTED
     ),
 }
+
+CHECKS["C05"] = {
+    "technique": "call-site completeness + dominance-by-membership-loop + CFG dominance rules",
+    "text": (
+        "Static rules for the details pipeline: every outcome call made for a run passes details=<case>.getDetails(); "
+        "every detail write testtools itself makes into a running TestCase's dict or gather_details' target is the "
+        "reserved 'reason' or is dominated by a loop that exits only when the name is not in that same dict (anything "
+        "else must use addDetailUniqueName -- this found the constant debug-detail name written in a loop, now fixed); "
+        "recording an exception is dominated by onException, MultipleExceptions recurses per constituent, the user "
+        "handler loop runs on all paths, expectFailure reports its traceback first; onException has one caller and the "
+        "dispatch follows _run_core; gathered details are eager snapshots with the original content type; mismatch "
+        "details go through addDetailUniqueName. Name-collision behaviour is thereby decided for all names, not for "
+        "the two or three the tests use."
+    ),
+    "note": "Payload bytes are not decided (C16 covers chunking). Fixture-internal detail dicts are out of scope." + TRUSTED,
+}
